@@ -997,3 +997,60 @@ def gen_program(draw, catalogue=None):
         schedules.append(events)
     return {"k": "prog", "program": {"catalogue": bool(catalogue), "decls": decls, "ops": ops},
             "schedules": schedules}
+
+
+# ---------------------------------------------------------------------------
+# C03 / C04 / C19: quantities of one generated linear type in independently drawn units
+
+@st.composite
+def gen_linear_case(draw, n_max=4):
+    """Universe + 2..n quantities of one linear type whose reference values are equal, close or random."""
+    g = UGen(draw, allow_noref=False, allow_quantum=True)
+    g.grow(draw(st.integers(1, 2)), draw(st.integers(3, 9)))
+    m = g.m
+    t = draw(st.sampled_from([t for t in m.types if t.has_ref and t.units]))
+    n = draw(st.integers(2, n_max))
+    Q = t.quantum
+    if Q is not None:
+        base = draw(st.integers(-10 ** 5, 10 ** 5))
+        refs = [(base + gen.pick(draw, (4, st.just(0)), (3, st.sampled_from([-1, 1])), (3, st.integers(-99, 99)))) * Q
+                for _ in range(n)]
+    else:
+        b = draw(gen.fractions())
+        refs = []
+        for _ in range(n):
+            sel = draw(st.integers(0, 9))
+            if sel <= 3:
+                refs.append(b)
+            elif sel <= 6:
+                eps = Fraction(draw(st.sampled_from([-1, 1])), 10 ** draw(st.integers(1, 30)))
+                refs.append(b * (1 + eps) if b != 0 else eps)
+            else:
+                refs.append(draw(gen.fractions()))
+    picks = []
+    for r in refs:
+        u = draw(st.sampled_from(t.units))
+        amt = r / m.units[u].factor
+        kind = draw(st.sampled_from(["dec", "frac", "decp"])) if is_dec_repr(amt) and len(str(amt.denominator)) < 150 \
+            else "frac"
+        picks.append([u, gen.encode_as(amt, kind, draw)])
+    return {"k": "u_lin", "uni": g.spec(), "picks": picks,
+            "kk": draw(gen.encode(gen.fractions(), ("int", "dec", "frac")))}
+
+
+def build_linear_case(case, ctx):
+    """-> (quantities, reference values, model units, quantized?) or None if a valid declaration failed."""
+    from quantity import Quantity
+    spec = case["uni"]
+    m = model_of(spec)
+    b = build(spec)
+    if b.errors:
+        di, exc = b.errors[0]
+        d = spec["decls"][di]
+        ctx.viol(f"u_decl/{d['d']}/{d.get('how', d.get('kind'))}/{type(exc).__name__}",
+                 f"valid declaration #{di} {d} raised {type(exc).__name__}: {exc}")
+        return None
+    qs = [Quantity(mknum(a), b.units[u]) for u, a in case["picks"]]
+    refs = [F(q.amount) * m.units[u].factor for q, (u, _) in zip(qs, case["picks"])]
+    mus = [m.units[u] for u, _ in case["picks"]]
+    return qs, refs, mus, m.types[mus[0].t].quantum is not None
